@@ -43,6 +43,10 @@ RULE = ('site tables drawn from the NP1 (2x480), NP2.1 (2x640), NP2.4 (4 shanks 
         'rc2xy/xy2rc on random on/off-grid integers, all trace_header/dense_layout/split_trace_header/adc_shifts arguments. '
         'plus an exhaustive box (all ordered selections of 1..2 (quick) / 1..3 (thorough) sites of a 2x2x2 grid corner). A case is non-trivial when it has >= 2 sites; distinct by its full description (generator index, sizes, first sites).')
 ASSUMPTIONS = [
+    'input forms excluded because the API does not support them (checked on the unchanged tree): Python lists for rc2xy / xy2rc (TypeError), '
+    'float nc for adc_shifts (TypeError), numeric metadata given as strings (imDatPrb_type = "24" is not recognised: read_meta_data never produces it), '
+    'a string shank for split_trace_header (compares unequal to every site), unsigned arrays below the grid origin for xy2rc (modular arithmetic), '
+    '8-bit integer arrays for rc2xy (NumPy keeps the array dtype against the Python-int pitches, so y = 20*row + 20 wraps: see known_findings demo rc2xy_narrow_int_overflow)',
     'results must not depend on earlier calls: repeated / interleaved calls on the same metadata dict, header dict or arrays must keep '
     'returning the geometry of the original values (on the unchanged tree no call changes its argument objects: geometry_from_meta does '
     '`th["y"] += 20` in place, but on the array parsed in that call); argument bit-identity itself and aliasing of results are not demanded',
@@ -117,9 +121,44 @@ def render(sites, hdr):
     return hdr + ''.join('(%d:%d:%d:%d)' % tuple(t) for t in sites)
 
 
+# ---- input forms: the same mathematical value / the same call in every legitimate representation ----------------
+NUM_FORMS = ('float', 'int', 'npfloat', 'npint')          # numeric metadata values: parsed from a file (float) or hand-built
+SHANK_FORMS = ('float', 'int', 'npint', 'str')            # meta_data["NP2.4_shank"] goes through int(...)
+VERSION_FORMS = {'1': ('int', 'float', 'npfloat', 'npint', 'npfloat32'), '2': ('int', 'float', 'npfloat', 'npint', '2.1'),
+                 '2.4': ('float', 'npfloat'), 'NPultra': ('str',)}
+DEFAULT_FORM = {'md': 'dict', 'num': 'float', 'shank': 'float', 'call': 'kw'}
+
+
+def num_form(x, form):
+    return {'float': float, 'int': int, 'npfloat': np.float64, 'npint': np.int64, 'str': lambda v: str(int(v)),
+            'npfloat32': np.float32}[form](x)
+
+
+def version_value(token, form='default'):
+    """the Python value of a major version token ('1', '2', '2.4', 'NPultra') in the given form"""
+    base = {'1': 1, '2': 2, '2.4': 2.4, 'NPultra': 'NPultra'}[token]
+    if form in ('default', 'str') or token == 'NPultra':
+        return base
+    if form == '2.1':
+        return 2.1
+    if token == '2.4':
+        return {'float': 2.4, 'npfloat': np.float64(2.4)}[form]
+    return num_form(base, form)
+
+
+def draw_form(rng):
+    """form of a geometry_from_meta call, drawn independently of the value; the plain form half of the time"""
+    if rng.random() < 0.5:
+        return dict(DEFAULT_FORM)
+    return {'md': 'bunch' if rng.random() < 0.5 else 'dict', 'num': NUM_FORMS[int(rng.integers(0, 4))],
+            'shank': SHANK_FORMS[int(rng.integers(0, 4))], 'call': 'pos' if rng.random() < 0.5 else 'kw'}
+
+
 def build_meta(case, rng=None):
-    """the metadata dict of a generated case (what read_meta_data would return for the written file)"""
-    md = dict(version_fields(case['version'], rng))
+    """the metadata dict of a generated case (what read_meta_data would return for the written file); numeric values,
+    the NP2.4_shank value and the container type follow case['form'] when present"""
+    form = case.get('form') or DEFAULT_FORM
+    md = {k: (num_form(v, form['num']) if isinstance(v, float) else v) for k, v in version_fields(case['version'], rng).items()}
     fam = FAMILY[case['version']]
     sites = case['sites']
     enc = case['enc']
@@ -147,11 +186,23 @@ def build_meta(case, rng=None):
         body[k] = ':'.join(parts)
         md['snsShankMap'] = hdr_s + ''.join('(%s)' % b for b in body)
     if case.get('shank_key') is not None:
-        md['NP2.4_shank'] = float(case['shank_key'])
+        md['NP2.4_shank'] = num_form(case['shank_key'], form['shank'])
     n = len(sites)
-    md['nSavedChans'] = float(n + 1)
+    md['nSavedChans'] = num_form(n + 1, form['num'])
     md['snsSaveChanSubset'] = ('0:%d,%d' % (n - 1, 768)) if n else '768'   # always a prefix of the probe + sync
+    if form['md'] == 'bunch':
+        from iblutil.util import Bunch
+        md = Bunch(md)
     return md
+
+
+def geometry_call(md, sort, nc=384, return_index=True, spelling='kw'):
+    """spikeglx.geometry_from_meta spelled with keywords or positionally in the documented order
+    (meta_data, return_index, nc, sort)"""
+    spikeglx, _ = _mods()
+    if spelling == 'pos':
+        return spikeglx.geometry_from_meta(md, return_index, nc, sort)
+    return spikeglx.geometry_from_meta(md, return_index=return_index, nc=nc, sort=sort)
 
 
 def _tok(s):
@@ -164,9 +215,9 @@ def meta_tokens(md):
     pt = md.get('imDatPrb_type')
     sh = md.get('NP2.4_shank')
     return [_tok(md.get('snsShankMap')), _tok(md.get('snsGeomMap')),
-            '1' if 'typeEnabled' in md else '0', '-' if pt is None else str(int(pt)),
+            '1' if 'typeEnabled' in md else '0', '-' if pt is None else str(int(float(pt))),
             '1' if ('imDatPrb_port' in md and 'imDatPrb_slot' in md) else '0',
-            '-' if sh is None else str(int(sh))]
+            '-' if sh is None else str(int(float(sh)))]
 
 
 def _ints(a):
@@ -345,7 +396,7 @@ def _first_diff(c1, c2):
     return f'{c1[:60]} vs {c2[:60]}'
 
 
-def impl_geom(consts, md, major, sort, nc, pure=True):
+def impl_geom(consts, md, major, sort, nc, pure=True, spelling='kw'):
     spikeglx, _ = _mods()
 
     def canon(res):
@@ -358,7 +409,7 @@ def impl_geom(consts, md, major, sort, nc, pure=True):
         return 'ok ' + c + ' inds=' + (_ints(inds) or 'non-integral')
 
     def call(m, **kw):
-        return spikeglx.geometry_from_meta(m, **kw)
+        return geometry_call(m, spelling=spelling, **kw)
     kw = {'return_index': True, 'nc': nc, 'sort': sort}
     if pure:
         return pure_seq(call, (md,), kw, canon, 'geometry_from_meta')
@@ -368,7 +419,14 @@ def impl_geom(consts, md, major, sort, nc, pure=True):
         return _err(e)
 
 
-def impl_geomsplit(consts, md, major, sort, s):
+def split_call(h, s, shank_form='int', spelling='kw'):
+    """neuropixel.split_trace_header with the shank number as int / float / numpy int, keyword or positional"""
+    _, neuropixel = _mods()
+    sv = {'int': int, 'float': float, 'npint': np.int64, 'npuint8': np.uint8}[shank_form](s)
+    return neuropixel.split_trace_header(h, sv) if spelling == 'pos' else neuropixel.split_trace_header(h, shank=sv)
+
+
+def impl_geomsplit(consts, md, major, sort, s, shank_form='int', spelling='kw'):
     spikeglx, neuropixel = _mods()
     try:
         th = spikeglx.geometry_from_meta(md, sort=sort)
@@ -383,7 +441,7 @@ def impl_geomsplit(consts, md, major, sort, s):
     def canon(r):
         c = canon_geom(r, den_of(consts, major))
         return ('ok ' + c) if c.startswith('den=') else c
-    return pure_seq(lambda h, shank: neuropixel.split_trace_header(h, shank=shank), (th,), {'shank': s}, canon, 'split_trace_header')
+    return pure_seq(lambda h, shank: split_call(h, shank, shank_form, spelling), (th,), {'shank': s}, canon, 'split_trace_header')
 
 
 # ---------------------------------------------------------------------------------------------
@@ -393,6 +451,13 @@ def _natural_sites(fam, rng, n, kind):
     """n sites of the family's grid, distinct, in the order SpikeGLX would list them for that selection"""
     nsh, ncol, nrow = GRIDS[fam]
     per_row = ncol
+    if kind == 'onecol':                      # a single column of one shank: only even or only odd electrodes
+        c_ = int(rng.integers(0, ncol))
+        sh = int(rng.integers(0, nsh))
+        step = int(rng.choice([1, 1, 2, 3]))
+        n = min(n, (nrow - 1) // step + 1)
+        r0 = int(rng.integers(0, nrow - (n - 1) * step))
+        return [(sh, c_, r0 + i * step) for i in range(n)]
     if kind == 'dense':                       # bank 0, channel i -> (col i % ncol, row i // ncol)
         sh = 0
         return [(sh, i % per_row, i // per_row) for i in range(n)]
@@ -434,6 +499,8 @@ def gen_case(rng, k):
     b = rng.random()
     if b < 0.02:
         n = 0
+    elif b < 0.16:
+        n = int(rng.integers(1, 4))          # tiny tables: 1..3 sites
     elif b < 0.34:
         n = int(rng.integers(1, 9))
     elif b < 0.58:
@@ -447,7 +514,7 @@ def gen_case(rng, k):
     else:
         n = int(rng.integers(385, 401))
     n = min(n, nsh * ncol * nrow)
-    kind = ['dense', 'bank', 'rows', 'blocks', 'random'][int(rng.choice(5, p=[.2, .15, .1, .25 if nsh > 1 else .05, .3 if nsh > 1 else .5]))]
+    kind = ['dense', 'bank', 'rows', 'blocks', 'random', 'onecol'][int(rng.choice(6, p=[.17, .13, .08, .22 if nsh > 1 else .05, .25 if nsh > 1 else .42, .15]))]
     sites = _natural_sites(fam, rng, n, kind) if n else []
     order = ['natural', 'shuffled', 'reversed', 'colmajor'][int(rng.choice(4, p=[.4, .35, .1, .15]))]
     if order == 'shuffled':
@@ -480,14 +547,17 @@ def gen_case(rng, k):
     elif (nsh > 1 and u < 0.4) or u < 0.05:
         present = sorted({t[0] for t in sites}) or [0]
         shank_key = int(rng.choice(present)) if rng.random() < 0.85 else int(rng.integers(0, 6))
-    return {'k': k, 'version': tag, 'sites': sites, 'enc': enc, 'perturb': perturb, 'sort': bool(rng.random() < 0.6),
+    case = {'k': k, 'version': tag, 'sites': sites, 'enc': enc, 'perturb': perturb, 'sort': bool(rng.random() < 0.6),
             'shank_key': shank_key, 'nc': 384 if rng.random() < 0.8 else int(rng.integers(0, 500)),
             'kind': kind, 'order': order, 'dup': dup}
+    case['form'] = draw_form(rng)
+    return case
 
 
 def case_desc(c, op='geom', extra=None):
     d = {'op': op, 'k': c['k'], 'version': c['version'], 'n': len(c['sites']), 'enc': c['enc'], 'kind': c['kind'],
-         'order': c['order'], 'sort': c['sort'], 'shank_key': c['shank_key'], 'first_sites': [list(t) for t in c['sites'][:4]]}
+         'order': c['order'], 'sort': c['sort'], 'shank_key': c['shank_key'], 'first_sites': [list(t) for t in c['sites'][:4]],
+         'form': c.get('form')}
     if extra:
         d.update(extra)
     return d
@@ -505,6 +575,63 @@ def _write_meta(md, path):
             if isinstance(v, float):
                 v = int(v)
             fid.write(f'{key}={v}\n')
+
+
+RCXY_DTYPES = ('int16', 'int32', 'int64', 'float32', 'float64', 'uint16')
+RCXY_LAYOUTS = ('scalar', '1d', '2d', 'strided', 'readonly', 'fortran')
+
+
+def draw_rcxy_form(rng, vtoken):
+    lay = RCXY_LAYOUTS[int(rng.choice(6, p=[.25, .3, .15, .1, .1, .1]))]
+    dt = ('pyint', 'pyfloat', 'npint64', 'npfloat32')[int(rng.integers(0, 4))] if lay == 'scalar' else RCXY_DTYPES[int(rng.integers(0, 6))]
+    vf = VERSION_FORMS[vtoken]
+    return {'layout': lay, 'dtype': dt, 'version': vf[int(rng.integers(0, len(vf)))], 'call': ('pos', 'kw', 'mixed')[int(rng.integers(0, 3))]}
+
+
+def _operand(vals, form):
+    """the list of integers `vals` in the requested representation"""
+    lay, dt = form['layout'], form['dtype']
+    if lay == 'scalar':
+        return {'pyint': int, 'pyfloat': float, 'npint64': np.int64, 'npfloat32': np.float32}[dt](vals[0])
+    a = np.array(vals, dtype=dt)
+    if lay == '2d':
+        return a.reshape(1, -1) if a.size % 2 else a.reshape(2, -1)
+    if lay == 'fortran':
+        return np.asfortranarray(np.stack([a, a])[:1] if a.size < 2 else a.reshape(-1, 2) if a.size % 2 == 0 else a.reshape(-1, 1))
+    if lay == 'strided':
+        big = np.zeros(2 * a.size, dtype=dt)
+        big[::2] = a
+        return big[::2]
+    if lay == 'readonly':
+        a.setflags(write=False)
+    return a
+
+
+def rcxy_call(fn, vtoken, form, first, second):
+    """neuropixel.rc2xy(row, col, version) / xy2rc(x, y, version) on the values in the given form; canonical answers of the
+    elements joined by ';' (through the call sequence of pure_seq)"""
+    _, neuropixel = _mods()
+    f = getattr(neuropixel, fn)
+    names = ('row', 'col') if fn == 'rc2xy' else ('x', 'y')
+    pv = version_value(vtoken, form['version'])
+
+    def call(p, q):
+        if form['call'] == 'pos':
+            return f(p, q, pv)
+        if form['call'] == 'kw':
+            return f(**{names[1]: q, names[0]: p, 'version': pv})
+        return f(p, q, version=pv)
+
+    def canon(out):
+        if fn == 'rc2xy':
+            xs, ys = np.asarray(out['x'], dtype=float).ravel(), np.asarray(out['y'], dtype=float).ravel()
+            return ';'.join(f'ok x={_ints([a]) or "non-integral"} y={_ints([b]) or "non-integral"}' for a, b in zip(xs, ys))
+        rs, cs = np.asarray(out['row'], dtype=float).ravel(), np.asarray(out['col'], dtype=float).ravel()
+        return ';'.join('offgrid' if _ints([a]) is None or _ints([b]) is None else f'ok row={_ints([a])} col={_ints([b])}' for a, b in zip(rs, cs))
+    try:
+        return pure_seq(call, (_operand(first, form), _operand(second, form)), {}, canon, fn)
+    except TypeError as e:
+        return 'err TypeError ' + str(e)[:60]
 
 
 def n_cases(ctx):
@@ -539,17 +666,21 @@ def correspondence(ctx):
             toks = meta_tokens(md)
             n = len(c['sites'])
             line = 'geom ' + ' '.join(toks) + f" {int(c['sort'])} {c['nc']}"
-            res = impl_geom(consts, md, major, c['sort'], c['nc'], pure=(n <= 64 or k % 2 == 0))   # call sequence; every 2nd large table
+            fm = c['form']
+            res = impl_geom(consts, md, major, c['sort'], c['nc'], pure=(n <= 64 or k % 2 == 0),    # call sequence; every 2nd large table
+                            spelling=fm['call'])
             outcome = res.split()[0] + (' ' + res.split()[1] if res.startswith('err') else '')
             tags = ('geom', 'version=' + str(c['version']), 'enc=' + c['enc'], nbucket(n), 'order=' + c['order'], 'sel=' + c['kind'],
                     'sort=' + str(int(c['sort'])), 'shank_key=' + ('absent' if c['shank_key'] is None else 'present'),
-                    'outcome=' + outcome) + (('duplicate-site',) if c['dup'] else ())
+                    'outcome=' + outcome, 'form:md=' + fm['md'], 'form:num=' + fm['num'], 'form:call=' + fm['call']) + \
+                (('duplicate-site',) if c['dup'] else ()) + ((('form:shank=' + fm['shank']),) if c['shank_key'] is not None else ()) + \
+                (('cols-present=' + ''.join(str(x) for x in sorted({t[1] for t in c['sites']})),) if 0 < n and FAMILY[c['version']] != 'NPultra' else ())
             add('geom', case_desc(c), line, res, nontrivial=(n >= 2), tags=tags)
             # the SAME metadata object again with the other sort flag (what a Reader opened with sort=False after one with sort=True sees)
             if k % 5 == 2:
                 c2_ = dict(c, sort=not c['sort'])
                 add('geom', case_desc(c2_, 'geom', {'after': 'same metadata object, other sort flag first'}),
-                    'geom ' + ' '.join(toks) + f" {int(c2_['sort'])} {c['nc']}", impl_geom(consts, md, major, c2_['sort'], c['nc']),
+                    'geom ' + ' '.join(toks) + f" {int(c2_['sort'])} {c['nc']}", impl_geom(consts, md, major, c2_['sort'], c['nc'], spelling=fm['call']),
                     nontrivial=(n >= 2), tags=('geom', 'geom-resort'))
             # the same metadata through a written .meta file and read_geometry (sort=True, nc=384 there)
             if k % 10 == 0:
@@ -558,7 +689,9 @@ def correspondence(ctx):
                 def canon_rg(th):
                     c_ = 'none' if th is None else canon_geom(th, den_of(consts, major))
                     return ('ok ' + c_) if c_.startswith('den=') else c_
-                r2 = pure_seq(spikeglx.read_geometry, (f,), {}, canon_rg, 'read_geometry')
+                from pathlib import Path
+                fpath = Path(f) if k % 20 == 0 else f        # str vs pathlib.Path
+                r2 = pure_seq(spikeglx.read_geometry, (fpath,), {}, canon_rg, 'read_geometry')
                 os.remove(f)
                 add('read_geometry', case_desc(c, 'read_geometry'), 'geom ' + ' '.join(toks) + ' 1 384', r2,
                     nontrivial=(n >= 2), tags=('read_geometry',))
@@ -567,7 +700,8 @@ def correspondence(ctx):
                 s = int(rng.integers(0, 5))
                 add('geomsplit', case_desc(c, 'geomsplit', {'split': s}),
                     'geomsplit ' + ' '.join(toks) + f" {int(c['sort'])} {s}",
-                    impl_geomsplit(consts, md, major, c['sort'], s), nontrivial=(n >= 2), tags=('geomsplit',))
+                    impl_geomsplit(consts, md, major, c['sort'], s, shank_form=('int', 'float', 'npint', 'npuint8')[k // 4 % 4],
+                                   spelling='pos' if k % 8 == 1 else 'kw'), nontrivial=(n >= 2), tags=('geomsplit',))
     finally:
         shutil.rmtree(tmp, ignore_errors=True)
 
@@ -621,52 +755,74 @@ def correspondence(ctx):
         add('mapch', {'op': 'mapch', 'shankMap': md.get('snsShankMap'), 'geomMap': md.get('snsGeomMap')},
             'mapch ' + ' '.join(toks), r, nontrivial=(':' in s), tags=('mapch', 'mapch=' + r.split()[0]))
 
-    # --- 3. rc2xy / xy2rc
+    # --- 3. rc2xy / xy2rc: values x forms (scalar / array dtype / layout, version form, call spelling), one model line per element
     rng = ctx.subrng(3)
-    for i in range(ctx.n(800, 8000)):
+    for i in range(ctx.n(500, 5000)):
         v = ['1', '2', '2.4', 'NPultra'][int(rng.integers(0, 4))]
-        pv = {'1': 1, '2': 2, '2.4': 2.4, 'NPultra': 'NPultra'}[v]
-        r_, c_ = int(rng.integers(-5, 700)), int(rng.integers(-5, 12))
-        res = pure_seq(lambda r, c, version: neuropixel.rc2xy(r, c, version=version),
-                       (np.array([r_], dtype=np.float32), np.array([c_], dtype=np.float32)), {'version': pv},
-                       lambda xy: f"ok x={_ints(xy['x'])} y={_ints(xy['y'])}", 'rc2xy')
-        xy = neuropixel.rc2xy(np.float32(r_), np.float32(c_), version=pv)
-        add('rc2xy', {'op': 'rc2xy', 'version': v, 'row': r_, 'col': c_}, f'rc2xy {v} {r_} {c_}', res, tags=('rc2xy',))
-        if rng.random() < 0.6:
-            x, y = int(xy['x']), int(xy['y'])
-            if rng.random() < 0.3:
-                x += int(rng.integers(-3, 4)); y += int(rng.integers(-3, 4))
-        else:
-            x, y = int(rng.integers(-40, 400)), int(rng.integers(-40, 10000))
-        def canon_rc(rc):
-            rr, cc = _ints(rc['row']), _ints(rc['col'])
-            return 'offgrid' if rr is None or cc is None else f'ok row={rr} col={cc}'
-        res = pure_seq(lambda x_, y_, version: neuropixel.xy2rc(x_, y_, version=version),
-                       (np.array([x], dtype=np.float32), np.array([y], dtype=np.float32)), {'version': pv}, canon_rc, 'xy2rc')
-        add('xy2rc', {'op': 'xy2rc', 'version': v, 'x': x, 'y': y}, f'xy2rc {v} {x} {y}', res,
-            tags=('xy2rc', 'xy2rc=' + ('off' if res == 'offgrid' else 'on')))
+        form = draw_rcxy_form(rng, v)
+        m = 1 if form['layout'] == 'scalar' else int(rng.choice([1, 2, 4]))
+        rcs = [(int(rng.integers(-5, 700)), int(rng.integers(-5, 12))) for _ in range(m)]
+        if form['dtype'] == 'uint16':
+            rcs = [(abs(r_), abs(c_)) for r_, c_ in rcs]
+        res = rcxy_call('rc2xy', v, form, [t[0] for t in rcs], [t[1] for t in rcs]).split(';')
+        res = res if len(res) == m else [res[0]] * m
+        ftags = ('form:layout=' + form['layout'], 'form:dtype=' + form['dtype'], 'form:version=' + form['version'], 'form:call=' + form['call'])
+        for (r_, c_), e in zip(rcs, res):
+            add('rc2xy', {'op': 'rc2xy', 'version': v, 'row': r_, 'col': c_, 'form': form}, f'rc2xy {v} {r_} {c_}', e, tags=('rc2xy',) + ftags)
+        g_ = neuropixel.CHANNEL_GRID[{'1': 1, '2': 2, '2.4': 2, 'NPultra': 'NPultra'}[v]]
+        xys = []
+        for (r_, c_) in rcs:
+            if rng.random() < 0.6:
+                x, y = c_ * g_['DX'] + g_['X0'], r_ * g_['DY'] + g_['Y0']
+                if rng.random() < 0.3:
+                    x += int(rng.integers(-3, 4)); y += int(rng.integers(-3, 4))
+            else:
+                x, y = int(rng.integers(-40, 400)), int(rng.integers(-40, 10000))
+            if form['dtype'] == 'uint16':      # unsigned arithmetic wraps below the grid origin: keep such forms on or above it
+                x, y = max(x, g_['X0']), max(y, g_['Y0'])
+            xys.append((int(x), int(y)))
+        res = rcxy_call('xy2rc', v, form, [t[0] for t in xys], [t[1] for t in xys]).split(';')
+        res = res if len(res) == m else [res[0]] * m
+        for (x, y), e in zip(xys, res):
+            add('xy2rc', {'op': 'xy2rc', 'version': v, 'x': x, 'y': y, 'form': form}, f'xy2rc {v} {x} {y}', e,
+                tags=('xy2rc', 'xy2rc=' + ('off' if e == 'offgrid' else 'on')) + ftags)
 
-    # --- 4. canonical layouts, trace headers, their splits, ADC tables, version tags (exhaustive over the arguments)
-    pvs = {'1': 1, '2': 2, '2.4': 2.4, 'NPultra': 'NPultra'}
-    for v, pv in pvs.items():
+    # --- 4. canonical layouts, trace headers, their splits, ADC tables, version tags: exhaustive over the arguments AND over the
+    #        forms of the version (1 / 1.0 / np.float64 / np.int64 / 2.1 ...) and the call spelling (keywords / positional / defaults)
+    frng = ctx.subrng(5)
+    for v in ('1', '2', '2.4', 'NPultra'):
         den = den_of(consts, v)
-        for ns in (1, 2, 3, 4):
-            cg = lambda h, den=den: 'ok ' + canon_geom(h, den)
-            for op, fn in (('dense', neuropixel.dense_layout), ('trace', neuropixel.trace_header)):
-                r = pure_seq(lambda version, nshank, fn=fn: fn(version=version, nshank=nshank), (), {'version': pv, 'nshank': ns}, cg, fn.__name__)
-                add(op, {'op': op, 'version': v, 'nshank': ns}, f'{op} {v} {ns}', r, tags=(op,))
-            try:
-                h_ = neuropixel.trace_header(version=pv, nshank=ns)     # ONE header object split into all shanks, as a user would
-            except (KeyError, ValueError, IndexError):
-                h_ = None
-            for s in range(0, 5):
+        cg = lambda h, den=den: 'ok ' + canon_geom(h, den)
+        for vf in VERSION_FORMS[v]:
+            pv = version_value(v, vf)
+            for ns in (1, 2, 3, 4):
+                for op, fn in (('dense', neuropixel.dense_layout), ('trace', neuropixel.trace_header)):
+                    for sp in ('kw', 'pos') + (('default',) if ns == 1 else ()):
+                        call = (lambda fn=fn, pv=pv, ns=ns: fn(version=pv, nshank=ns)) if sp == 'kw' else \
+                            (lambda fn=fn, pv=pv, ns=ns: fn(pv, ns)) if sp == 'pos' else (lambda fn=fn, pv=pv: fn(pv))
+                        r = pure_seq(call, (), {}, cg, fn.__name__)
+                        add(op, {'op': op, 'version': v, 'nshank': ns, 'form': {'version': vf, 'call': sp}}, f'{op} {v} {ns}', r,
+                            tags=(op, 'form:version=' + vf, 'form:call=' + sp))
                 try:
-                    if h_ is None:
-                        h_ = neuropixel.trace_header(version=pv, nshank=ns)
-                    r = pure_seq(lambda h, shank: neuropixel.split_trace_header(h, shank=shank), (h_,), {'shank': s}, cg, 'split_trace_header')
-                except (KeyError, ValueError, IndexError) as e:
-                    r = _err(e)
-                add('tracesplit', {'op': 'tracesplit', 'version': v, 'nshank': ns, 'shank': s}, f'tracesplit {v} {ns} {s}', r, tags=('tracesplit',))
+                    h_ = neuropixel.trace_header(version=pv, nshank=ns)     # ONE header object split into all shanks, as a user would
+                except (KeyError, ValueError, IndexError):
+                    h_ = None
+                for s in range(0, 5):
+                    sf = ('int', 'float', 'npint', 'npuint8')[int(frng.integers(0, 4))]
+                    sp = 'pos' if frng.random() < 0.5 else 'kw'
+                    try:
+                        if h_ is None:
+                            h_ = neuropixel.trace_header(version=pv, nshank=ns)
+                        r = pure_seq(lambda h, shank, sf=sf, sp=sp: split_call(h, shank, sf, sp), (h_,), {'shank': s}, cg, 'split_trace_header')
+                    except (KeyError, ValueError, IndexError) as e:
+                        r = _err(e)
+                    add('tracesplit', {'op': 'tracesplit', 'version': v, 'nshank': ns, 'shank': s, 'form': {'version': vf, 'shank': sf, 'call': sp}},
+                        f'tracesplit {v} {ns} {s}', r, tags=('tracesplit', 'form:shank=' + sf))
+        # default arguments: trace_header() / dense_layout() / adc_shifts() are the NP1 single-shank, full-probe forms
+        if v == '1':
+            for op, fn in (('dense', neuropixel.dense_layout), ('trace', neuropixel.trace_header)):
+                add(op, {'op': op, 'version': v, 'nshank': 1, 'form': {'call': 'no-arguments'}}, f'{op} 1 1', pure_seq(fn, (), {}, cg, fn.__name__),
+                    tags=(op, 'form:call=no-arguments'))
         for nc in sorted(set([0, 1, 2, 3, 11, 12, 13, 23, 24, 25, 31, 32, 33, 191, 192, 383, 384, 385, 500] +
                              [int(x) for x in ctx.subrng(4).integers(0, 420, ctx.n(10, 120))])):
             def canon_adc(res, den=den):
@@ -674,9 +830,16 @@ def correspondence(ctx):
                 num = np.rint(np.asarray(ss) * den)
                 ok = np.array_equal(num / den, np.asarray(ss))
                 return f"ok den={den} ss={_ints(num) if ok else 'inexact'} adc={_ints(adc)}"
-            add('adc', {'op': 'adc', 'version': v, 'nc': nc}, f'adc {v} {nc}',
-                pure_seq(lambda version, nc: neuropixel.adc_shifts(version=version, nc=nc), (), {'version': pv, 'nc': nc}, canon_adc, 'adc_shifts'),
-                nontrivial=nc > 1, tags=('adc',))
+            vf = VERSION_FORMS[v][int(frng.integers(0, len(VERSION_FORMS[v])))]
+            pv = version_value(v, vf)
+            ncf = ('int', 'npint', 'npint32', 'npuint16')[int(frng.integers(0, 4))]
+            ncv = {'int': int, 'npint': np.int64, 'npint32': np.int32, 'npuint16': np.uint16}[ncf](nc)
+            sp = ('kw', 'pos', 'default')[int(frng.integers(0, 3))] if nc == neuropixel.NC else ('kw', 'pos')[int(frng.integers(0, 2))]
+            call = (lambda pv=pv, ncv=ncv: neuropixel.adc_shifts(version=pv, nc=ncv)) if sp == 'kw' else \
+                (lambda pv=pv, ncv=ncv: neuropixel.adc_shifts(pv, ncv)) if sp == 'pos' else (lambda pv=pv: neuropixel.adc_shifts(pv))
+            add('adc', {'op': 'adc', 'version': v, 'nc': nc, 'form': {'version': vf, 'nc': ncf, 'call': sp}}, f'adc {v} {nc}',
+                pure_seq(call, (), {}, canon_adc, 'adc_shifts'), nontrivial=nc > 1,
+                tags=('adc', 'form:nc=' + ncf, 'form:version=' + vf, 'form:call=' + sp))
     for te in (0, 1):
         for pt in (None, 0, 21, 24, 1030, 2013, 1100, 1300, 7):
             for ps in (0, 1, 2):
@@ -730,9 +893,8 @@ def expected_adc(fam, ch):
     return 2 * (ch // (2 * a)) + ch % 2, ((ch % (2 * a)) // 2) / ncy
 
 
-def _geo(md, sort):
-    spikeglx, _ = _mods()
-    return spikeglx.geometry_from_meta(md, sort=sort)
+def _geo(md, sort, spelling='kw'):
+    return geometry_call(md, sort, return_index=False, spelling=spelling)
 
 
 def _eq(a, b):
@@ -766,19 +928,21 @@ def oracle_table(inp):
         return None
     major = spikeglx._get_neuropixel_major_version_from_meta(version_fields(tag))
     encs = ('shank',) if fam == 'NPultra' else ('shank', 'geom')
+    form = inp.get('form') or dict(DEFAULT_FORM)        # representation of the call: container, number types, spelling
+    sp = form['call']
     ref = {}
     for enc in encs:
-        c = {'version': tag, 'sites': sites, 'enc': enc, 'shank_key': None}
+        c = {'version': tag, 'sites': sites, 'enc': enc, 'shank_key': None, 'form': form}
         md = build_meta(c)
         # results must not depend on earlier calls: same metadata object, repeated / interleaved / other sort flag
         for srt in (True, False, True):
-            r = _seq(lambda m, **kw: spikeglx.geometry_from_meta(m, **kw), (md,), {'sort': srt, 'return_index': True},
-                     f'geometry_from_meta[sort={srt}]')
+            r = _seq(lambda m, **kw: geometry_call(m, spelling=sp, **kw), (md,), {'sort': srt, 'return_index': True},
+                     f'geometry_from_meta[sort={srt}, spelling={sp}]')
             if r:
                 return f'{enc} map, md = c08.build_meta(input, enc={enc!r}): ' + r
         try:
-            U = _geo(md, False)
-            S = _geo(md, True)
+            U = _geo(md, False, sp)
+            S = _geo(md, True, sp)
         except Exception as e:
             return f'{enc} map: geometry_from_meta raised {type(e).__name__}: {e}'
         # each recorded site listed once, in file order when unsorted
@@ -804,7 +968,7 @@ def oracle_table(inp):
         # sorting: a permutation, ordered by shank, row, descending column, every attribute moved together
         for srt, G_ in ((False, U), (True, S)):
             try:
-                _, order = spikeglx.geometry_from_meta(md, return_index=True, sort=srt)
+                _, order = geometry_call(md, srt, spelling=sp)
             except Exception as e:
                 return f'{enc} map: geometry_from_meta(return_index=True) raised {type(e).__name__}: {e}'
             if not _eq(order, G_['ind']):
@@ -845,10 +1009,9 @@ def oracle_table(inp):
                 r = _seq(lambda h, shank: neuropixel.split_trace_header(h, shank=shank), (P,), {'shank': s}, f'split_trace_header[shank={s}]')
                 if r:
                     return f'{enc} map, P = geometry_from_meta(md, sort={srt}): ' + r
-                mds = dict(md)
-                mds['NP2.4_shank'] = float(s)
+                mds = build_meta(dict(c, shank_key=s))
                 try:
-                    G = _geo(mds, srt)
+                    G = _geo(mds, srt, sp)
                     R = neuropixel.split_trace_header(P, shank=s)
                 except Exception as e:
                     return f'{enc} map: shank {s}: raised {type(e).__name__}: {e}'
@@ -876,10 +1039,19 @@ def oracle_global(inp):
     """C08 on the canonical layouts / ADC tables of one probe generation. inp: {'canonical': version token, 'nshank': k}"""
     spikeglx, neuropixel = _mods()
     v = inp['canonical']
-    pv = {'1': 1, '2': 2, '2.4': 2.4, 'NPultra': 'NPultra'}[v]
+    pv = version_value(v, inp.get('version_form', 'default'))       # 1 / 1.0 / np.float64(1) / np.int64(1) / 2.1 ...
+    positional = inp.get('call') == 'pos'
     ns = int(inp.get('nshank', 1))
     fam = {'1': 'NP1', '2': 'NP2.1', '2.4': 'NP2.4', 'NPultra': 'NPultra'}[v]
     NC = neuropixel.NC
+    if positional:      # positional arguments in the documented order: (version, nshank), (version, nc), (row, col, version), (h, shank)
+        th_p, dl_p, ad_p = neuropixel.trace_header(pv, ns), neuropixel.dense_layout(pv, ns), neuropixel.adc_shifts(pv, np.int64(50))
+        th_k, dl_k, ad_k = neuropixel.trace_header(version=pv, nshank=ns), neuropixel.dense_layout(version=pv, nshank=ns), neuropixel.adc_shifts(version=pv, nc=50)
+        for nm, a_, b_ in (('trace_header', th_p, th_k), ('dense_layout', dl_p, dl_k), ('adc_shifts', ad_p, ad_k)):
+            if _canon_any(a_) != _canon_any(b_):
+                return f'{nm}({pv!r}, {ns if nm != "adc_shifts" else 50}) positional differs from the keyword call: ' + _first_diff(_canon_any(b_), _canon_any(a_))
+        if _canon_any(neuropixel.split_trace_header(th_k, 1)) != _canon_any(neuropixel.split_trace_header(h=th_k, shank=1)):
+            return 'split_trace_header(h, 1) positional differs from split_trace_header(h=h, shank=1)'
     for nm, fn, kw in (('trace_header', neuropixel.trace_header, {'version': pv, 'nshank': ns}),
                        ('dense_layout', neuropixel.dense_layout, {'version': pv, 'nshank': ns}),
                        ('adc_shifts', neuropixel.adc_shifts, {'version': pv}), ('adc_shifts', neuropixel.adc_shifts, {'version': pv, 'nc': 50})):
@@ -962,8 +1134,27 @@ def oracle_global(inp):
     return None
 
 
+HWGRID = {'1': (16, 11, 20, 20), '2': (32, 27, 15, 20), '2.4': (32, 27, 15, 20), 'NPultra': (6, 0, 6, 0)}   # pitch / origin in um
+
+
+def oracle_rcxy(inp):
+    """rc2xy / xy2rc on values in a given form.  inp: {'rcxy': version token, 'form': {...}, 'rows': [...], 'cols': [...]}"""
+    v, form, rows, cols = inp['rcxy'], inp['form'], list(inp['rows']), list(inp['cols'])
+    dx, x0, dy, y0 = HWGRID[v]
+    want = ';'.join(f'ok x={c_ * dx + x0} y={r_ * dy + y0}' for r_, c_ in zip(rows, cols))
+    got = rcxy_call('rc2xy', v, form, rows, cols)
+    if got != want:
+        return f'rc2xy(row={rows}, col={cols}, version={version_value(v, form["version"])!r}) in form {form}: {got[:200]}; the grid gives {want[:200]}'
+    want = ';'.join(f'ok row={r_} col={c_}' for r_, c_ in zip(rows, cols))
+    xs, ys = [c_ * dx + x0 for c_ in cols], [r_ * dy + y0 for r_ in rows]
+    got = rcxy_call('xy2rc', v, form, xs, ys)
+    if got != want:
+        return f'xy2rc(x={xs}, y={ys}, version={version_value(v, form["version"])!r}) in form {form}: {got[:200]}; the inverse of rc2xy gives {want[:200]}'
+    return None
+
+
 def oracle(inp):
-    return oracle_global(inp) if 'canonical' in inp else oracle_table(inp)
+    return oracle_global(inp) if 'canonical' in inp else oracle_rcxy(inp) if 'rcxy' in inp else oracle_table(inp)
 
 
 def _small_battery():
@@ -985,15 +1176,42 @@ def _small_battery():
     return out
 
 
+def _form_battery():
+    """the small inputs again in every other representation (after the plain ones, so a form-independent failure is reported plainly)"""
+    out = []
+    for v in ('1', '2', '2.4', 'NPultra'):
+        for vf in VERSION_FORMS[v]:
+            for call in ('kw', 'pos'):
+                out.append({'canonical': v, 'nshank': 1, 'version_form': vf, 'call': call})
+            for lay, dt in (('scalar', 'pyint'), ('scalar', 'pyfloat'), ('scalar', 'npint64'), ('1d', 'int16'), ('1d', 'int64'), ('1d', 'float32'),
+                            ('1d', 'uint16'), ('2d', 'int32'), ('strided', 'float64'), ('readonly', 'int64'), ('fortran', 'float32')):
+                for call in ('pos', 'kw', 'mixed'):
+                    m = 1 if lay == 'scalar' else 4
+                    out.append({'rcxy': v, 'form': {'layout': lay, 'dtype': dt, 'version': vf, 'call': call},
+                                'rows': [0, 1, 7, 300][:m], 'cols': [1, 0, 1, 0][:m]})
+    tables = [('3B2', [(0, 0, 0, 1)]), ('3B2', [(0, 0, 4, 1), (0, 0, 2, 1)]), ('3B2', [(0, 1, 1, 1), (0, 1, 3, 1)]),
+              ('NP2.4', [(1, 0, 3, 1), (0, 1, 2, 1), (1, 1, 3, 1)]), ('NP2.1', [(0, 1, 0, 1), (0, 0, 0, 1)]), ('3A', [(0, 0, 0, 1), (0, 1, 0, 1)])]
+    for md_ in ('dict', 'bunch'):
+        for num in NUM_FORMS:
+            for shank in SHANK_FORMS:
+                for call in ('kw', 'pos'):
+                    f = {'md': md_, 'num': num, 'shank': shank, 'call': call}
+                    if f != DEFAULT_FORM:
+                        for tag, sites in tables:
+                            out.append({'version': tag, 'sites': sites, 'form': f})
+    return out
+
+
 def _size(inp):
-    return (0, 0) if 'canonical' in inp else (1, len(inp['sites']))
+    return (0, 0) if 'canonical' in inp else (0, len(inp['rows'])) if 'rcxy' in inp else (1, len(inp['sites']))
 
 
 def _shrink(inp, msg):
     """greedy removal of sites while the oracle keeps failing"""
-    if 'canonical' in inp:
+    if 'canonical' in inp or 'rcxy' in inp:
         return inp, msg
     sites = list(inp['sites'])
+    extra = {'form': inp['form']} if inp.get('form') else {}
     improved = True
     while improved and len(sites) > 1:
         improved = False
@@ -1007,14 +1225,14 @@ def _shrink(inp, msg):
                     i += chunk
                     continue
                 try:
-                    r = oracle({'version': inp['version'], 'sites': trial})
+                    r = oracle(dict({'version': inp['version'], 'sites': trial}, **extra))
                 except Exception as e:
                     r = f'raised {type(e).__name__}: {e}'
                 if r:
                     sites, msg, improved = trial, r, True
                 else:
                     i += chunk
-    return {'version': inp['version'], 'sites': [list(t) for t in sites]}, msg
+    return dict({'version': inp['version'], 'sites': [list(t) for t in sites]}, **extra), msg
 
 
 def search(ctx, reasons):
@@ -1025,12 +1243,17 @@ def search(ctx, reasons):
         if c.get('op') in ('geom', 'read_geometry', 'geomsplit') and c['k'] not in seen:
             seen.add(c['k'])
             g = gen_case(ctx.subrng(1, c['k']), c['k'])
-            cands.append({'version': g['version'], 'sites': g['sites']})
+            cands.append({'version': g['version'], 'sites': g['sites'], 'form': g['form']})
         elif c.get('op') in ('dense', 'trace', 'tracesplit', 'adc'):
-            cands.append({'canonical': c['version'], 'nshank': c.get('nshank', 1)})
+            f = c.get('form') or {}
+            cands.append({'canonical': c['version'], 'nshank': c.get('nshank', 1) if c.get('nshank') in (1, 4) else 1,
+                          'version_form': f.get('version', 'default'), 'call': 'pos' if f.get('call') == 'pos' else 'kw'})
+        elif c.get('op') == 'rc2xy' and c.get('form'):
+            cands.append({'rcxy': c['version'], 'form': c['form'], 'rows': [c['row']], 'cols': [c['col']]})
+    cands += _form_battery()
     for k in range(ctx.n(150, 600)):
         g = gen_case(ctx.subrng(1, k), k)
-        cands.append({'version': g['version'], 'sites': g['sites']})
+        cands.append({'version': g['version'], 'sites': g['sites'], 'form': g['form']})
     best = None
     for inp in cands:
         try:
@@ -1049,7 +1272,8 @@ def search(ctx, reasons):
                          'both encodings equal; split = restriction of parent; ADC by channel number, distinct evenly spaced delays; canonical layouts consistent; '
                          'the same on every repeated / interleaved call with the same argument objects'),
             'how': "python (PYTHONPATH=/repo/src:/verif/harness): from props import c08; print(c08.oracle(input))  -- "
-                   "builds the metadata with c08.build_meta and calls spikeglx.geometry_from_meta / neuropixel.trace_header"}
+                   "builds the metadata with c08.build_meta (container / number types / spelling from input['form']) and calls "
+                   "spikeglx.geometry_from_meta / neuropixel.trace_header / rc2xy / xy2rc in that form"}
 
 
 def replay(ctx, rep):
@@ -1070,5 +1294,12 @@ def _f15_demo():
     return not np.array_equal(np.asarray(g['adc'], dtype=float), exp)
 
 
+def _narrow_int_demo():
+    """rc2xy on an 8-bit row array: row 200 is a valid row and fits uint8, y = 4020 does not and wraps to 180."""
+    _, neuropixel = _mods()
+    out = neuropixel.rc2xy(np.array([200], dtype=np.uint8), np.array([1], dtype=np.uint8), version=1)
+    return int(out['y'][0]) != 200 * 20 + 20
+
+
 def known_findings(ctx):
-    return {'adc_by_position_nonprefix_subset': _f15_demo}
+    return {'adc_by_position_nonprefix_subset': _f15_demo, 'rc2xy_narrow_int_overflow': _narrow_int_demo}
